@@ -100,6 +100,32 @@ pub struct S8 {
     g: Probe,
     h: ProbeB,
 }
+/// field names not in alphabetical order, and a one-line struct without a trailing comma
+#[derive(AgentSet)]
+pub struct Unsorted {
+    zeta: Probe,
+    mid: ProbeB,
+    alpha: Probe,
+}
+#[rustfmt::skip]
+#[derive(AgentSet)]
+pub struct NoComma { first: ProbeB, second: Probe }
+#[rustfmt::skip]
+#[derive(AgentSet)]
+pub struct Single { only: Probe }
+#[derive(MarketAgentSet)]
+pub struct MUnsorted {
+    zeta: MProbe,
+    mid: MProbeB,
+    alpha: MProbe,
+}
+#[rustfmt::skip]
+#[derive(MarketAgentSet)]
+pub struct MNoComma { first: MProbeB, second: MProbe }
+#[rustfmt::skip]
+#[derive(MarketAgentSet)]
+pub struct MSingle { only: MProbe }
+
 #[derive(MarketAgentSet)]
 pub struct M1 {
     a: MProbe,
@@ -310,4 +336,46 @@ pub fn c20_marketagentset_8() {
     MarketAgentSet::update(&mut s, &mut env, &mut rng);
     maudit(&env, &rng, 8, &[true, false, false, true, false, true, true, false]);
     vcover!(env.order((0, 7)).vol == 7, "cover.reached_end");
+}
+
+#[kani::proof]
+#[kani::unwind(12)]
+pub fn c20_agentset_names_and_commas() {
+    let mut env = mk_env();
+    let mut rng = SymRng::new();
+    let mut s = Unsorted { zeta: Probe { tag: 1 }, mid: ProbeB { tag: 2 }, alpha: Probe { tag: 3 } };
+    AgentSet::update(&mut s, &mut env, &mut rng);
+    audit(&env, &rng, 3, &[false, true, false]);
+    let mut env = mk_env();
+    let mut rng = SymRng::new();
+    let mut s = NoComma { first: ProbeB { tag: 1 }, second: Probe { tag: 2 } };
+    AgentSet::update(&mut s, &mut env, &mut rng);
+    audit(&env, &rng, 2, &[true, false]);
+    let mut env = mk_env();
+    let mut rng = SymRng::new();
+    let mut s = Single { only: Probe { tag: 1 } };
+    AgentSet::update(&mut s, &mut env, &mut rng);
+    audit(&env, &rng, 1, &[false]);
+    vcover!(env.order(0).vol == 7, "cover.reached_end");
+}
+
+#[kani::proof]
+#[kani::unwind(12)]
+pub fn c20_marketagentset_names_and_commas() {
+    let mut env = mk_menv();
+    let mut rng = SymRng::new();
+    let mut s = MUnsorted { zeta: MProbe { tag: 1 }, mid: MProbeB { tag: 2 }, alpha: MProbe { tag: 3 } };
+    MarketAgentSet::update(&mut s, &mut env, &mut rng);
+    maudit(&env, &rng, 3, &[false, true, false]);
+    let mut env = mk_menv();
+    let mut rng = SymRng::new();
+    let mut s = MNoComma { first: MProbeB { tag: 1 }, second: MProbe { tag: 2 } };
+    MarketAgentSet::update(&mut s, &mut env, &mut rng);
+    maudit(&env, &rng, 2, &[true, false]);
+    let mut env = mk_menv();
+    let mut rng = SymRng::new();
+    let mut s = MSingle { only: MProbe { tag: 1 } };
+    MarketAgentSet::update(&mut s, &mut env, &mut rng);
+    maudit(&env, &rng, 1, &[false]);
+    vcover!(env.order((0, 0)).vol == 7, "cover.reached_end");
 }
